@@ -210,14 +210,41 @@ std::string do_case(const std::vector<std::string> &w)
     return w[p++];
   };
 
-  const std::size_t ncats(std::stoul(next())), nrows(std::stoul(next()));
-  const locus best{std::stoul(next()), std::stoul(next())};
-  const std::size_t ncells(std::stoul(next()));
-
+  // CHAIN <function P/..> <constant K?/..> <N>: the program
+  //   [i] F [i+1] [N+1]  (i < N),  [N] X0,  [N+1] the constant
+  // i.e. F(F(...F(X0, c)..., c), c) nested N deep, built here instead of being spelled out
+  const bool chain(!w.empty() && w[0] == "CHAIN");
+  std::size_t ncats, nrows;
+  locus best{0, 0};
   std::vector<std::unique_ptr<symbol>> syms;
   std::vector<cell_t> cells;
   std::ostringstream out;
   out << 'C';
+
+  if (chain)
+  {
+    next();
+    auto fs(make_symbol(next()));
+    auto cs(make_symbol(next()));
+    if (!fs || !cs || fs->arity() != 2) throw std::runtime_error("bad chain symbols");
+    const std::size_t n(std::stoul(next()));
+    ncats = 1;
+    nrows = n + 2;
+    syms.push_back(std::move(fs));
+    syms.push_back(std::make_unique<variable>("X0", 0, 0));
+    syms.push_back(std::move(cs));
+    for (std::size_t i(0); i < n; ++i)
+      cells.push_back({i, gene(std::pair<symbol *, std::vector<index_t>>{syms[0].get(), {i + 1, n + 1}})});
+    cells.push_back({n, gene(std::pair<symbol *, std::vector<index_t>>{syms[1].get(), {}})});
+    cells.push_back({n + 1, gene(std::pair<symbol *, std::vector<index_t>>{syms[2].get(), {}})});
+    out << " chain";
+  }
+  else
+  {
+  ncats = std::stoul(next());
+  nrows = std::stoul(next());
+  best = locus{std::stoul(next()), std::stoul(next())};
+  const std::size_t ncells(std::stoul(next()));
 
   for (std::size_t k(0); k < ncells; ++k)
   {
@@ -244,12 +271,20 @@ std::string do_case(const std::vector<std::string> &w)
     syms.push_back(std::move(s));
   }
 
+  }
+
   // public constructor from the first cell of every row
   std::vector<gene> firsts;
   std::vector<bool> used(cells.size(), false);
   for (std::size_t r(0); r < nrows; ++r)
   {
     bool found(false);
+    if (chain)
+    {
+      firsts.push_back(cells[r].g);
+      used[r] = true;
+      continue;
+    }
     for (std::size_t k(0); k < cells.size() && !found; ++k)
       if (cells[k].row == r)
       {
@@ -400,6 +435,7 @@ std::string do_case(const std::vector<std::string> &w)
     else
       throw std::runtime_error("unknown mode");
 
+    if (chain) s = "-";   // tens of thousands of memo entries: results only
     out << " | R " << r << " F " << f << " S " << s;
   }
 
